@@ -11,12 +11,15 @@
    The same with DISCARDED FORMS in every gap (C13_gaps_never_change_the_value): any alternation of trivia runs and
    discards  #_ <trivia> <form>  whose form is again any term of the grammar (discards nest; discarded collections
    contain discards) may stand in front of each element and of the closer.
+   With TAGS in the documents (and a registry): the invocation log of a whole document is the post-order list of its
+   non-discarded registered tagged elements -- whatever tagged forms stand inside the discarded forms of any gap, none of
+   them reaches a handler (C13_discards_never_reach_handlers_partial).
    PARTIAL: the document-level theorems cover the fragment only; the other kinds, handler call logs and shifted positions
    are decided by the correspondence run + metamorphic oracle. *)
 From Coq Require Import ZArith NArith List Bool String.
 From Coq.Strings Require Import Byte.
 From Verif Require Import Lanes Common Values Scan Reader ScanProofs TriviaProofs TriviaReader DiscardInv.
-From Verif Require Import Equality Configs FlagProofs RoundTrip RoundTripWs RoundTripEq RoundTripGap.
+From Verif Require Import Equality Configs FlagProofs RoundTrip RoundTripWs RoundTripEq RoundTripGap RoundTripTag.
 Import ListNotations.
 
 (* whitespace bytes, commas and LF-terminated comments in front of anything: the scanner
@@ -82,6 +85,16 @@ Theorem C13_gaps_never_change_the_value : forall c o m1 m2 a1 a2, In c all_cfgs 
     denotes c (gerase a1) n1 /\ denotes c (gerase a1) n2 /\
     equal c no_ext_equal n1 n2 = true /\ hash_value c no_ext_hash n1 = hash_value c no_ext_hash n2.
 Proof. exact gaps_never_change_the_value. Qed.
+(* tags: the log of the whole run is the list cs of the denotation, and the denotation of every form read while
+   discarding carries the empty list -- so the discarded forms in the gaps (any tags inside them) contribute nothing *)
+Theorem C13_discards_never_reach_handlers_partial : forall c o m a, In c all_cfgs -> hwf a -> hok o builtin_handler a ->
+  slice m 0 (List.length (hpr a)) = hpr a ->
+  (exists r s n cs, run_doc c o m (N.of_nat (List.length (hpr a))) = Ret r s /\
+                    r_value r = Some n /\ r_err r = EOk /\ r_eof r = false /\
+                    hden c o builtin_handler false a n cs /\ calls (r_state r) = cs) /\
+  (forall a' n' cs', hden c o builtin_handler true a' n' cs' -> cs' = []).
+Proof. exact (fun c o m a Hc Hw Hk Hs => conj (read_document_tags c o m a Hc Hw Hk Hs) (proj1 (hden_discarding c o builtin_handler))). Qed.
+
 (* non-vacuity:  [#_:x 1 #_[2 #_ 3 4] , (:a #_(;c<LF>) -20) #_ 7]  renders  [1 (:a -20)]  *)
 Example C13_gap_example :
   let d1 := GDisc [] (GKw ["x"%byte]) in
@@ -109,6 +122,7 @@ Proof. reflexivity. Qed.
 
 Print Assumptions C13_renderings_read_equal.
 Print Assumptions C13_gaps_never_change_the_value.
+Print Assumptions C13_discards_never_reach_handlers_partial.
 Print Assumptions C13_reader_absorbs_trivia.
 Print Assumptions C13_trivia_only_document.
 Print Assumptions C13_trivia_insertion.
